@@ -5,6 +5,7 @@ package collect
 import (
 	"context"
 	"fmt"
+	"os"
 	"sort"
 	"sync"
 	"testing"
@@ -292,9 +293,13 @@ func (h *c01Harness) describe(sp *types.Span) map[string]any {
 	if rate < 1 {
 		rate = 1 // absent and zero are equivalent
 	}
+	orig := geti(types.MetaRefineryOriginalSampleRate)
+	if c01Relayed && geti("crate_sent") == 0 && orig == c01RelayedOrig {
+		orig = 0 // no client rate to record: the client's own body field is still there, Refinery recorded nothing
+	}
 	return map[string]any{
 		"t": h.rev[sp.TraceID], "id": geti("sid"), "crate": geti("crate_sent"),
-		"rate": rate, "final": geti(types.MetaRefineryFinalSampleRate), "orig": geti(types.MetaRefineryOriginalSampleRate),
+		"rate": rate, "final": geti(types.MetaRefineryFinalSampleRate), "orig": orig,
 		"dry": dry, "dryrate": geti("meta.dryrun.sample_rate"),
 		"reason": gets(types.MetaRefineryReason), "sreason": gets(types.MetaRefinerySendReason),
 		"stressed": stressed, "attrs": attrs, "host": sp.Data.Exists(types.MetaRefineryLocalHostname),
@@ -458,6 +463,11 @@ func (h *c01Harness) Reset(init map[string]any) error {
 	return nil
 }
 
+// VERIF_RELAYED=1: every span body carries pre-existing meta.refinery rate fields with values no rate of the model takes
+var c01Relayed = os.Getenv("VERIF_RELAYED") != ""
+
+const c01RelayedOrig, c01RelayedFinal = 13, 17
+
 func (h *c01Harness) span(a map[string]any) *types.Span {
 	data := map[string]any{"sid": verifkit.Int(a, "id"), "crate_sent": verifkit.Int(a, "crate"), "trace.trace_id": h.ids[verifkit.Str(a, "t")]}
 	switch verifkit.Str(a, "kind") {
@@ -468,6 +478,12 @@ func (h *c01Harness) span(a map[string]any) *types.Span {
 	}
 	if !verifkit.Bool(a, "root") {
 		data["trace.parent_id"] = "p"
+	}
+	if c01Relayed {
+		// the client's BODY already carries Refinery's rate meta fields (a span relayed by an edge Refinery or
+		// re-ingested from an export); the client-supplied rate is still the envelope's (C04)
+		data[types.MetaRefineryOriginalSampleRate] = c01RelayedOrig
+		data[types.MetaRefineryFinalSampleRate] = c01RelayedFinal
 	}
 	// every span has the same data size (the ejection model counts spans)
 	probe := types.NewPayload(h.conf, data)
